@@ -237,6 +237,11 @@ class FunctionReport:
 
 def verify_function(qualname, contract, schema, timeout_ms=10000, contracts=None, only=None):
     t0 = time.time()
+    if contract.get("schema_override"):
+        # a contract may narrow the class sets of fields (a stronger type invariant in its precondition)
+        schema = {k: (dict(v) if isinstance(v, dict) else v) for k, v in schema.items()}
+        for cls, fields in contract["schema_override"].items():
+            schema.setdefault(cls, {}).update(fields)
     fi = source.lookup(qualname)
     rep = FunctionReport(qualname)
     rep.src_hash = fi.src_hash
